@@ -45,7 +45,7 @@ struct RcptState {
   int k_reports = 0;
   bool attempted_after_final = false;
 };
-struct MsgState {
+struct MsgState { bool alrm_due[2] = {false, false};   /* deferred recipients waiting (none in flight) when an ALRM was sent */
   long num = 0; std::string sender; std::vector<RcptState> rc; bool is_bounce = false; long committed_at = 0; int injector_uid = 0;
   bool gone = false;         // info unlinked
   bool bounced = false;      // a bounce notice for it has been queued
@@ -147,7 +147,7 @@ struct DaemonScenario : Scenario {
     w.run_until_blocked(cleanpid);   // its start-up is independent of everything else: no scheduling choice needed
     std::map<int, int> sf; sf[0] = lg; sf[1] = lc_w; sf[2] = lr_r; sf[3] = rc_w; sf[4] = rr_r; sf[5] = qc_w; sf[6] = cq_r;
     sendpid = w.spawn("/var/qmail/bin/qmail-send", {"qmail-send"}, sf, UID_QMAILS, GID_QMAIL, "/");
-    term_sent = false; w.cur = sendpid; clamp_checked = false;
+    term_sent = false; w.cur = sendpid; clamp_checked = false; alarm_check_pending = false;
     w.counters["daemon_starts"]++;
   }
   int start_injector(World &w, const MsgSpec &m) {
@@ -347,7 +347,7 @@ struct DaemonScenario : Scenario {
       w.counters["passes_started"]++;
     }
   }
-  bool alarm_since[2] = {false, false};
+  bool alarm_since[2] = {false, false}; bool alarm_check_pending = false;
   std::map<std::pair<long, int>, int> restart_marks;
   bool restarted_since(MsgState &, int) { return false; }
 
@@ -565,6 +565,18 @@ struct DaemonScenario : Scenario {
     events++;
     if (events > 4000) throw HarnessError{"event horizon exceeded"};
     bool send_alive = alive(w, sendpid);
+    if (term_sent) alarm_check_pending = false;
+    if (send_alive && alarm_check_pending && M("C15")) {
+      // "an ALRM makes everything due at once": the daemon has come to rest again after the signal, so every message with deferred recipients
+      // must have an attempt outstanding on that channel, unless the channel has no free slot
+      alarm_check_pending = false;
+      for (auto &kv : ledger) { MsgState &m = kv.second; if (m.gone || !m.preprocessed) continue;
+        for (int c = 0; c < 2; c++) { if (!m.alrm_due[c]) continue; m.alrm_due[c] = false; bool pending = false, flying = false; for (auto &r : m.rc) if (r.chan == c && !r.final_report && !r.marked) { pending = true; if (r.inflight) flying = true; }
+          int used = 0; for (auto &d : inflight) if (d.chan == c) used++;
+          int limit = std::min(c == 0 ? conc_l : conc_r, announce);
+          if (pending && !flying && used < limit) { w.violation(std::string("C15:alrm-not-honoured:") + (c ? "remote" : "local"), "after ALRM the daemon went back to sleep without retrying the deferred " + std::string(c ? "remote" : "local") + " recipients of message " + std::to_string(m.num) + " although " + std::to_string(limit - used) + " delivery slot(s) are free; history:" + history); return false; } } }
+      w.counters["alrm_promptness_checked"]++;
+    }
     if (!send_alive) {
       // daemon not running: (re)start it unless the run is over
       if (sendpid && proc(w, sendpid) && proc(w, sendpid)->st == P_ZOMBIE && !daemon_killed && !machine_crashed) {
@@ -664,6 +676,7 @@ struct DaemonScenario : Scenario {
     if (which == 2 && hupedit) { config_b = !config_b; write_routing_controls(w); history += config_b ? " EDIT(far.example local, virt2.example virtual)" : " EDIT(back)"; w.counters["control_edits"]++; }
     w.raise_sig(*p, sigs[which]); history += std::string(" ") + names[which]; w.counters[std::string("signal_") + names[which]]++;
     if (which == 0) { term_sent = true; for (auto &kv : ledger) for (int c = 0; c < 2; c++) if (kv.second.pass_started[c] && !kv.second.gone && !kv.second.pass_eof[c]) kv.second.term_open_pass[c] = true; }
+    if (which == 1 && !term_sent) { alarm_check_pending = true; for (auto &kv : ledger) { MsgState &m = kv.second; for (int c = 0; c < 2; c++) { bool pend = false, fly = false; for (auto &r : m.rc) if (r.chan == c && !r.final_report && !r.marked) { pend = true; if (r.inflight) fly = true; } m.alrm_due[c] = !m.gone && m.preprocessed && m.had_defer[c] && pend && !fly; } } }
     if (which == 1) { alarm_since[0] = alarm_since[1] = true; for (auto &kv : ledger) { kv.second.earliest_next[0] = kv.second.earliest_next[1] = 0; } }
   }
   // C16/C15: the daemon must not sleep past its earliest due event known to the ledger
